@@ -30,6 +30,17 @@
                                          which nothing in quizx produces (limit_denominator's new_raw results are coprime
                                          with d > 0: MC_Phase).  OBSERVATION ONLY, outside the property's quantifier: counted
                                          in stats (raw_inputs, raw_noncanonical, raw_wrong_class, raw_misclassified), never a violation
+     mulph  {r, a, b, av, bv, res, out, out2}  reg[r] := reg[a] * reg[b]  (Mul<Phase>; out2: the same through *=)
+     divph  {r, a, b, av, bv, res, out, out2}  reg[r] := reg[a] / reg[b]  (Div<Phase>; out2: through /=)
+     divint {r, a, av, c, res, out, out2}      reg[r] := reg[a] / c       (Div<i64>;   out2: through /=)
+                                         These multiply / divide the stored REPRESENTATIVES; the property does not say which
+                                         class must come out (they are not defined modulo 2), only that what is stored is
+                                         canonical.  A zero divisor (bv = 0, c = 0) is sent too: num::Ratio panics, which the
+                                         property neither demands nor forbids (stats.div_by_zero, div_by_zero_panics).
+     normalize {r, a, av, res, out}      reg[r] := reg[a].normalize()  (Phase::normalize called on a stored value)
+     display {a, av, res, s}             format!("{}", reg[a]); observation + L1 (the property fixes no text format)
+     bigring {op, x, y, c, res, outs, bigok, same, rep}   mulph / divph / divint with operands up to 2^30 / 2^40: harness-side
+                                         booleans bigok (canonical), same (operator = assign form), rep (= transcription, L1)
      crash  {status, op}                 the dry run of the workload died (stack overflow, abort) or hung at request `op`
    res = ok | panic (message in msg) | bad (result not representable for TLC: d <= 0 or >= 2^15; decimal strings in outs)
 
@@ -40,9 +51,13 @@
      PredsOK                            the flags are the class predicates ClsPauli .. ClsT, ClsZero, ClsOne of av
      CmpOK                              eq <=> same class modulo 2;  != is the negation of ==
      FloatRoundTrip, BigCanonical, BigCongruent    the harness-side booleans
-     NoPanic, NoCrash                   the property's operations are total on these inputs
+     Canonical, AssignConsistent        mulph / divph / divint (non-zero divisor): out is in (-1,1], reduced, d > 0, and the
+                                        assign form stored the same phase (out2 = out); BigAssignConsistent for the 2^40 batch
+     NormalizeOK                        normalize() of a stored phase returns that phase (= Norm(av), canonical)
+     NoPanic, NoCrash                   the property's operations are total on these inputs (division: non-zero divisors)
    L1 (drift): out = the transcription (NormImpl, LimitDenImpl, the code's Is* predicates on the stored value,
-   from_f64 exact on dyadic inputs); logged operands = the spec's registers.
+   from_f64 exact on dyadic inputs; RepArith: mulph / divph / divint = PMulRep / PDivRep / PDivIntRep of the operands;
+   DisplayText: s = PhaseStr(av)); logged operands = the spec's registers.
 
    All operands are below 2^15 so that TLC's 32-bit products cannot overflow.  Operands near the 64-bit
    limit cannot be checked by TLC; the harness does not send them (only the `big` batch, judged by itself). *)
@@ -53,7 +68,8 @@ Init == /\ l = 1 /\ reg = [i \in 0..3 |-> PZeroPh] /\ viol = <<>> /\ drift = <<>
         /\ stats = [groups |-> 0, news |-> 0, arith |-> 0, limits |-> 0, limit_approx |-> 0, limit_ties |-> 0,
                     preds |-> 0, cmps |-> 0, cmp_equal |-> 0, floats |-> 0, floats_small |-> 0, bigs |-> 0,
                     wraps |-> 0, limit_bad |-> 0, raw_inputs |-> 0, raw_noncanonical |-> 0, raw_wrong_class |-> 0,
-                    raw_misclassified |-> 0, nontrivial |-> 0]
+                    raw_misclassified |-> 0, ringops |-> 0, ring_wraps |-> 0, div_by_zero |-> 0, div_by_zero_panics |-> 0,
+                    normalizes |-> 0, displays |-> 0, display_mismatch |-> 0, bigrings |-> 0, nontrivial |-> 0]
 Chk(ok, name) == IF ok THEN <<>> ELSE <<<<l, name>>>>
 \* the logged operands are what the spec's registers hold
 RegsAgree(e) == (Has(e, "av") => reg[e.a] = e.av) /\ (Has(e, "bv") => reg[e.b] = e.bv)
@@ -120,6 +136,37 @@ Big(e) ==
   ELSE /\ viol' = viol \o Chk(e.bigok, "BigCanonical") \o Chk(e.cong, "BigCongruent")
        /\ stats' = [stats EXCEPT !.bigs = @ + 1]
        /\ UNCHANGED <<reg, drift>>
+\* Mul<Phase>, Div<Phase>, Div<i64> and their assign forms
+RingRaw(e) == CASE e.k = "mulph" -> RMul(e.av, e.bv) [] e.k = "divph" -> RDiv(e.av, e.bv) [] e.k = "divint" -> RDivInt(e.av, e.c)
+ZeroDivisor(e) == (e.k = "divph" /\ e.bv[1] = 0) \/ (e.k = "divint" /\ e.c = 0)
+Ring(e) ==
+  IF ZeroDivisor(e) THEN          \* not promised either way: observed
+       /\ stats' = [stats EXCEPT !.div_by_zero = @ + 1, !.div_by_zero_panics = @ + B2I(e.res = "panic")]
+       /\ reg' = IF e.res = "ok" THEN [reg EXCEPT ![e.r] = e.out] ELSE reg
+       /\ UNCHANGED <<viol, drift>>
+  ELSE IF e.res # "ok" THEN Failed(e)
+  ELSE LET raw == RingRaw(e)
+       IN /\ viol' = viol \o Chk(Canonical(e.out), "Canonical") \o Chk(e.out2 = e.out, "AssignConsistent")
+          /\ drift' = (IF e.out = NormImpl(raw) THEN drift ELSE Append(drift, <<l, "RepArith", e.k>>)) \o RegDrift(e)
+          /\ reg' = [reg EXCEPT ![e.r] = e.out]
+          /\ stats' = [stats EXCEPT !.ringops = @ + 1, !.ring_wraps = @ + B2I(~InRange(raw)), !.nontrivial = @ + 1]
+Normalize(e) ==
+  IF e.res # "ok" THEN Failed(e)
+  ELSE /\ viol' = viol \o Chk(e.out = Norm(e.av) /\ Canonical(e.out), "NormalizeOK")
+       /\ drift' = drift \o RegDrift(e)
+       /\ reg' = [reg EXCEPT ![e.r] = e.out]
+       /\ stats' = [stats EXCEPT !.normalizes = @ + 1]
+Display(e) ==
+  LET bad == e.res # "ok" \/ e.s # PhaseStr(e.av) IN
+  /\ stats' = [stats EXCEPT !.displays = @ + 1, !.display_mismatch = @ + B2I(bad)]
+  /\ drift' = IF bad THEN Append(drift, <<l, "DisplayText">>) ELSE drift
+  /\ UNCHANGED <<reg, viol>>
+BigRing(e) ==
+  IF e.res # "ok" THEN Failed(e)
+  ELSE /\ viol' = viol \o Chk(e.bigok, "BigCanonical") \o Chk(e.same, "BigAssignConsistent")
+       /\ drift' = IF e.rep THEN drift ELSE Append(drift, <<l, "RepArith", e.op>>)
+       /\ stats' = [stats EXCEPT !.bigrings = @ + 1]
+       /\ UNCHANGED reg
 NewRaw(e) ==
   /\ stats' = IF e.res # "ok" THEN [stats EXCEPT !.raw_inputs = @ + 1, !.raw_noncanonical = @ + 1]
               ELSE [stats EXCEPT !.raw_inputs = @ + 1, !.raw_noncanonical = @ + B2I(~Canonical(e.out)),
@@ -137,6 +184,10 @@ Step(e) ==
     [] e.k = "f64" -> Float(e)
     [] e.k = "big" -> Big(e)
     [] e.k = "newraw" -> NewRaw(e)
+    [] e.k \in {"mulph", "divph", "divint"} -> Ring(e)
+    [] e.k = "normalize" -> Normalize(e)
+    [] e.k = "display" -> Display(e)
+    [] e.k = "bigring" -> BigRing(e)
     [] e.k = "crash" -> viol' = Append(viol, <<l, "NoCrash", e.status>>) /\ UNCHANGED <<reg, drift, stats>>
 Next == \/ /\ l <= NLines /\ Step(Rec[l]) /\ l' = l + 1
         \/ /\ l = NLines + 1 /\ Report(l, viol, drift, stats) /\ l' = l + 1 /\ UNCHANGED <<reg, viol, drift, stats>>
